@@ -17,7 +17,7 @@ THEOREMS = ['C08_limit_best_is_fold', 'C08_limit_best_general', 'C08_limit_best_
             'C08_value_of_spec', 'C08_value_of_no_fuel_exhaustion', 'C08_value_of_rebind_refuted',
             'C08_value_of_order_independent',
             'C08_complete_frames_total', 'C08_classical_finish_refuted', 'C08_classical_finish_repaired',
-            'C08_finish_fixed_classical']
+            'C08_finish_fixed_classical', 'C08_reachable_wf', 'C08_classical_finish_repaired_history']
 
 
 def chunks(l, n):
@@ -31,11 +31,9 @@ def histories(rng, L, tier):
     pool = mlib.small_pool(L)
     out = []
     if tier == 'thorough':
-        out += [[o] for o in pool]
-        pairs = [[a, b] for a in pool for b in pool]
-        rng.shuffle(pairs)
-        out += pairs[:400]
-        for n, k in ((3, 150), (4, 150)):
+        out += [[]] + [[o] for o in pool]
+        out += [[a, b] for a in pool for b in pool]          # every order of <= 2 calls: exhaustive
+        for n, k in ((3, 250), (4, 250)):
             out += [[rng.choice(pool) for _ in range(n)] for _ in range(k)]
         out += [mlib.rand_history(rng, L) for _ in range(300)]
     else:
@@ -127,6 +125,10 @@ def classical_clauses(dump, modal):
 
 # ------------------------------------------------------------------ the check
 
+TABLES = {}
+GEN_SEARCH = [0]
+
+
 def static_obligations(chk, logics):
     """Per-logic boolean side conditions on regenerated data, decided by the kernel."""
     exprs, meta = [], []
@@ -191,9 +193,31 @@ def static_obligations(chk, logics):
             else:
                 lemmas.append(f'Lemma obl_gen_{i}_{kind}_refuted : exists r, {e} = Some r.\n'
                               'Proof. eexists. vm_compute. reflexivity. Qed.\n')
-                chk.violation(f'generaliser:{n}:{kind}',
-                              f'{n}: value_of on {kind} over the value list {ans} differs from the modelled generaliser',
-                              dict(kind='generaliser', logic=n, op=kind, witness=ans), found_input=False)
+                import re as _re
+                vs = [x[1:] for x in _re.findall(r'V[FNBT]', ans.split(']')[0])]
+                found = None
+                GEN_SEARCH[0] += 1
+                for perm in (itertools.permutations(vs) if GEN_SEARCH[0] <= 10 else []):
+                    if kind in mlib.QUANTS:
+                        ops = [['pred', 0, mlib.F1, [mlib.c(k)], x] for k, x in enumerate(perm)]
+                        sent = ['Q', kind, 0, mlib.P(mlib.F1, mlib.v(0))]
+                    else:
+                        ops = [o for k, x in enumerate(perm) for o in (['access', 0, 10 + k], ['atomic', 10 + k, 0, x])]
+                        sent = ['M', kind, mlib.A0]
+                    case = dict(logic=n, ops=ops, sents=[sent], worlds=[0])
+                    r = probe_json('probe_model.py', ['run'], stdin=json.dumps([case]))[0]
+                    if r['err'] is None and mlib.Reference(L, TABLES[n], r['dump']).code(sent, 0) != r['vals'][0][0]:
+                        found = (ops, sent, r['vals'][0][0])
+                        break
+                what = (f'{n}: value_of({kind} ...) over the instance values {vs} is not the documented generalised '
+                        f'{"disjunction" if kind in ("Existential", "Possibility") else "conjunction"} (kernel witness {ans})')
+                if found:
+                    chk.violation(f'generaliser:{n}:{kind}', what,
+                                  dict(kind='case', logic=n, ops=found[0], sentence=found[1], world=0, order=0,
+                                       clause='value_of', impl=found[2], witness=ans), found_input=True)
+                else:
+                    chk.violation(f'generaliser:{n}:{kind}', what,
+                                  dict(kind='generaliser', logic=n, op=kind, witness=ans), found_input=False)
         else:
             ok = ans.replace(' ', '') == '(true,true)'
             chk.obligation(f'{n}:folded operator associative-commutative ({kind})', ok)
@@ -219,6 +243,11 @@ def check_case(chk, L, tables, case, res, coq, order):
         # an exception is part of the modelled behaviour: classify by the op kind
         where = res['err'][0] if res['err'] else 'model'
         opk = case['ops'][where][0] if isinstance(where, int) else where
+        if res['err'] and res['err'][1] == 'Hang':
+            chk.violation(f'nontermination:{opk}', f'{n}: {opk} did not return within the time limit on ops {case["ops"]} '
+                          '(the model terminates: fuel bound proved)',
+                          dict(base, clause='raise', impl=res['err'], model=status), found_input=True)
+            return
         chk.violation(f'raise:{opk}', f'{n}: implementation {"raised " + str(res["err"]) if res["err"] else "did not raise"} '
                       f'but the model {"raised" if status else "did not"} on ops {case["ops"]}',
                       dict(base, clause='raise', impl=res['err'], model=status), found_input=False)
@@ -244,6 +273,32 @@ def check_case(chk, L, tables, case, res, coq, order):
     if sorted(c_consts) != sorted(res['dump']['consts']):
         chk.violation('model-tie:constants', f'{n}: Coq model constants {c_consts} vs {res["dump"]["consts"]}',
                       dict(base, clause='constants'), found_input=False)
+    # --- every value set by the history is what the finished model holds -------------
+    neg = {tuple(i)[0]: o for i, o in tables['Negation']}
+    opq = lambda t: (t[0] == 'Q' and not L['quantified']) or (t[0] == 'M' and not L['modal'])
+    for op in case['ops']:
+        if op[0] not in ('atomic', 'opaque', 'pred', 'literal'):
+            continue
+        w, x = op[1], op[-1]
+        fr = res['dump']['frames'].get(str(w), dict(atomics=[], opaques=[], preds=[]))
+        if op[0] == 'atomic':
+            kind, key = 'atomics', ['A', op[2]]
+        elif op[0] == 'opaque':
+            kind, key = 'opaques', op[2]
+        elif op[0] == 'pred':
+            kind, key = 'preds', (op[2], op[3])
+        else:
+            t = op[2]
+            while not opq(t) and t[0] == 'U' and t[1] == 'Negation':
+                x, t = neg[x], t[2]
+            kind, key = (('opaques', t) if opq(t) else ('atomics', t) if t[0] == 'A' else ('preds', (t[1], t[2])))
+        if kind == 'preds':
+            got = [val for pk, params, val in fr['preds'] if pk == key[0] and params == key[1]]
+        else:
+            got = [val for k, val in fr[kind] if k == key]
+        if got != [x]:
+            chk.violation(f'finish:set-value-lost:{kind}', f'{n}: {op} was accepted but the finished model holds {got} '
+                          f'for it in frames[{w}].{kind}', dict(base, clause='retained', op=op, impl=got))
     # --- complete_frames_total on the implementation -----------------------------
     known_a = {json.dumps(k) for fr in res['dump']['frames'].values() for k, _ in fr['atomics']}
     known_o = {json.dumps(k) for fr in res['dump']['frames'].values() for k, _ in fr['opaques']}
@@ -304,6 +359,7 @@ def run(args) -> int:
         chk.obligation(f'{name}:expressible', False)
         chk.violation(f'model:{name}:inexpressible', f'model of {name} cannot be expressed: {why}',
                       dict(kind='obligation', logic=name, detail=why), found_input=False)
+    TABLES.update({n: t['tables'] for n, t in tf.items()})
     static_obligations(chk, logics)
     chk.assumptions = props_assumptions(PID)
     chk.theorems = THEOREMS
@@ -363,6 +419,10 @@ def run(args) -> int:
         c = cases[i]
         L = by_name[c['logic']]
         cq = coq.get((i, order)) or coq[(i, 0)]
+        if (r['err'] and r['err'][1] == 'Hang') or any(7 in row for row in r.get('vals', [])):
+            # confirm a time-limit hit in a fresh process before it is reported
+            r = probe_json('probe_model.py', ['run'], order=order, stdin=json.dumps([c]), timeout=600)[0]
+            results[(i, order)] = r
         before = chk.cases
         check_case(chk, L, tf[L['name']]['tables'], c, r, cq, order)
         chk.case([c['logic'], c['ops'], order], nontrivial=bool(c['ops']),
@@ -402,7 +462,7 @@ def replay(path: str) -> int:
     clause = rep.get('clause')
     bad = False
     if clause == 'raise':
-        bad = res['err'] != rep.get('impl')
+        bad = res['err'] == rep.get('impl')      # still the recorded deviant behaviour
         print(f'replay: ops {rep["ops"]} -> err {res["err"]}')
     elif res['err'] is not None:
         print(f'replay: raised {res["err"]}')
@@ -430,6 +490,11 @@ def replay(path: str) -> int:
         found = [b for b in classical_clauses(res['dump'], L['modal']) if b[0] == clause]
         print(f'replay: {clause}: {found[:3]}')
         bad = bool(found)
+    elif clause == 'retained':
+        chk = Check(PID, 'quick', 0)
+        check_case(chk, L, tf[L['name']]['tables'], case, res, (0, (res['aw'], res['ap']), (res['fkeys'], res['dump']['consts']), res['vals']), rep.get('order', 0))
+        bad = any(f['key'].startswith('finish:set-value-lost') for f in chk.findings)
+        print(f'replay: {[f["what"] for f in chk.findings if f["key"].startswith("finish:set-value-lost")][:2]}')
     elif clause == 'complete':
         bad = True
     if bad:
